@@ -108,6 +108,10 @@ func c15Alphabet() []c15Input {
 	}))
 	add("1230", ref.TypedFrame(1230, 8, func(i int) byte { return byte(i * 3) }))
 	add("unknown-4001", ref.TypedFrame(4001, 5, func(i int) byte { return byte(i) }))
+	// the two ends of the 12-bit type space: a table or cache indexed by the type
+	// must not let them meet each other or the negative 'not RTCM' value
+	add("type-4095", ref.TypedFrame(4095, 5, func(i int) byte { return byte(i + 1) }))
+	add("type-0", ref.TypedFrame(0, 5, func(i int) byte { return byte(i + 1) }))
 	add("non-rtcm", []byte("$GPGGA,1*47\r\n"))
 	bad := ref.TypedFrame(1005, 19, nil)
 	bad[10] ^= 0x40
